@@ -552,6 +552,11 @@ impl Locale {
         if matches!(value, ParsedValue::Ranges(_) | ParsedValue::Subkeys(_)) {
             return None;
         }
+        Self::parse_plural_key(key)
+    }
+
+    /// `key_one` => (`key`, cardinal, one), `key_ordinal_one` => (`key`, ordinal, one)
+    pub fn parse_plural_key(key: &Key) -> Option<(&str, PluralRuleType, PluralForm)> {
         let (base_key, suffix) = key.name.rsplit_once('_')?;
         let (base_key, rule_type) = match base_key.strip_suffix("_ordinal") {
             Some(base_key) => (base_key, PluralRuleType::Ordinal),
